@@ -672,6 +672,13 @@ func (e *Engine) specCall(cur, old *State, n SCall, env *SpecEnv) Val {
 			return boolVal("false")
 		case "valid":
 			return boolVal(e.validTerm(cur, arg(0)))
+		case "cause": // github.com/pkg/errors.Cause of an error value
+			v := arg(0)
+			if v.K != KIface {
+				e.specErr("cause(x) expects an error value")
+				return v
+			}
+			return e.causeOf(v)
 		case "nonnil":
 			v := arg(0)
 			if v.K == KIface {
